@@ -356,16 +356,16 @@ theorem thrLead_safe (ts st en : Array Int) (hm : st.size = en.size) (hc : Canon
 
 /-- **`jitthreshold` stays inside its arrays for every series** — empty and one-sample series included — that is
 well formed on a canonical support (what `Tsd.threshold` passes) -/
-theorem threshold_safe (ts : Array Int) (ix : Array Bool) (st en : Array Int) (hm : st.size = en.size)
+theorem thresholdScan_safe (ts : Array Int) (ix : Array Bool) (st en : Array Int) (hm : st.size = en.size)
     (hc : Canon st en hm) (hix : ix.size = ts.size)
     (hin : ∀ i, (h : i < ts.size) → InIv st en hm ts[i]) :
-    ∃ r, jitthreshold ts ix st en = .ok r := by
+    ∃ r, jitthresholdScan ts ix st en = .ok r := by
   have hk0 : 0 < ts.size → 0 < en.size := by
     intro h
     obtain ⟨j, hj, _⟩ := hin 0 h
     omega
   obtain ⟨k, hlead, hklt⟩ := thrLead_safe ts st en hm hc hin 0 hk0
-  unfold jitthreshold
+  unfold jitthresholdScan
   simp only [hlead, bind, Except.bind]
   by_cases hn : 0 < ts.size
   · have r1 : rdB ix 0 = .ok (ix[0]'(by omega)) := by simp [rdB, show 0 < ix.size by omega]
@@ -384,5 +384,28 @@ theorem threshold_safe (ts : Array Int) (ix : Array Bool) (st en : Array Int) (h
       simp [h0]
     rw [this]
     exact ⟨_, rfl⟩
+
+/-- **`jitthreshold` stays inside its arrays for every series** — empty and one-sample series included — that is
+well formed on a canonical support (what `Tsd.threshold` passes) -/
+theorem threshold_safe (ts : Array Int) (ix : Array Bool) (st en : Array Int) (hm : st.size = en.size)
+    (hc : Canon st en hm) (hix : ix.size = ts.size)
+    (hin : ∀ i, (h : i < ts.size) → InIv st en hm ts[i]) :
+    ∃ r, jitthreshold ts ix st en = .ok r := by
+  unfold jitthreshold
+  split
+  · exact ⟨_, rfl⟩
+  · exact thresholdScan_safe ts ix st en hm hc hix hin
+
+/-- **… and for ANY series on a support with no epoch at all** — the case of a series with a single timestamp (or only
+duplicates of one) built without `time_support`: its default support `[t, t]` has no duration and vanishes, so its samples
+lie OUTSIDE its (empty) support and `threshold_safe` does not apply; the guard `if ends.shape[0] == 0` (added by `fix:`)
+returns before `ends[0]` is read -/
+theorem threshold_safe_no_epoch (ts : Array Int) (ix : Array Bool) (st : Array Int) :
+    jitthreshold ts ix st #[] = .ok (#[], #[]) := by
+  unfold jitthreshold; simp [pure, Except.pure]
+
+/-- what the guard is for: without it the scan reads `ends[0]` of the empty array (the unrepaired kernel on
+`nap.Tsd([1.0], [5.0]).threshold(0.0)`) -/
+theorem thresholdScan_no_epoch_oob : isOob (jitthresholdScan #[1] #[true] #[] #[]) = true := by decide +kernel
 
 end Pyn.C15
